@@ -272,8 +272,9 @@ func (p *Parser) lookupManipulatorFunc(funcName, optName string, pos token.Pos) 
 		return nil, logger.Errorf("%v: function %v cannot use for %v func", p.fset.Position(pos), funcName, optName)
 	}
 
-	if sig.Params().Len() < 2 {
-		// A manipulator receives the destination and the source at least.
+	if sig.Params().Len() < 2 || sig.Variadic() {
+		// A manipulator receives the destination and the source at least. A variadic function
+		// cannot be called with the arguments as they are.
 		return nil, logger.Errorf("%v: function %v cannot use for %v func", p.fset.Position(pos), funcName, optName)
 	}
 
